@@ -80,6 +80,10 @@ class Module:
             self.tree = ast.parse(text, filename=path)
         except SyntaxError as e:  # pragma: no cover
             raise AnalysisError(f"{relpath} does not parse: {e}") from e
+        # `match` statements are read as the if/elif chains they abbreviate (octacheck.desugar); the pinned tree has none
+        from .desugar import desugar_matches
+
+        self.desugared_matches = desugar_matches(self.tree) if " match " in text or "\nmatch " in text else 0
         self.functions: dict[str, FuncInfo] = {}
         self.classes: dict[str, ClassInfo] = {}
         self.imports: dict[str, str] = {}  # local name -> dotted target (module-level)
@@ -111,6 +115,24 @@ class Module:
         new = {q for q, f in self.functions.items() if q not in known and f.parent_func is None and body_digest(f.node) not in vanished}
         if not new:
             return
+        # recursive helpers (directly, or through other new helpers) are never read in place: there is no finite place to read
+        calls: dict[str, set[str]] = {}
+        by_name = {self.functions[q].name: q for q in new}
+        for q in new:
+            calls[q] = {by_name[nm] for c in ast.walk(self.functions[q].node) if isinstance(c, ast.Call) for nm in [c.func.id if isinstance(c.func, ast.Name) else c.func.attr if isinstance(c.func, ast.Attribute) else None] if nm in by_name}
+        def reaches_self(q: str) -> bool:
+            seen, stack = set(), list(calls[q])
+            while stack:
+                x = stack.pop()
+                if x == q:
+                    return True
+                if x not in seen:
+                    seen.add(x)
+                    stack.extend(calls.get(x, ()))
+            return False
+        new = {q for q in new if not reaches_self(q)}
+        if not new:
+            return
         new_names = {self.functions[q].name for q in new}
         for q, fi in list(self.functions.items()):
             if fi.parent_func is not None:
@@ -132,6 +154,22 @@ class Module:
                     if key in self.functions:
                         self.functions[key].node = sub
             self.inlined_helpers[q] = sorted(set(inl))
+        # new record classes (NamedTuple / dataclass that the pinned tree does not have): a local record that is only built and
+        # read field by field is replaced by one local per field, so that the rules see the values and not the container
+        from .inline import record_fields, scalarise_records
+
+        known_classes = set(str(known.get("<classes>", "")).split())
+        records = {}
+        for cname, ci in self.classes.items():
+            if cname not in known_classes:
+                rf = record_fields(ci.node)
+                if rf:
+                    records[cname] = rf
+        self.scalarised_records = 0
+        if records:
+            for q, fi in list(self.functions.items()):
+                if fi.parent_func is None:
+                    self.scalarised_records += scalarise_records(fi.node, records)
         # a private new helper that is no longer called anywhere in the module has been read in place at every call site:
         # analysing it again on its own would only report the same constructs under a second name
         self.absorbed_helpers: list[str] = []
